@@ -411,6 +411,10 @@ func (fx *FuncCtx) run() {
 			fx.obligeSplit("post", fmt.Sprintf("post.%s@ret%d", lbl, r.ord), r.pos, r.st.pc, t, "postcondition at return: "+en.Text)
 		}
 	}
+	// relational frame: the result depends only on the listed parts of the parameters
+	if dep := con.Options["dependsonly"]; dep != "" {
+		fx.relationalFrame(strings.Fields(dep), flow, info)
+	}
 	// vacuity: the end of each return path must be reachable, and false must not be provable at entry
 	if len(flow.rets) > 0 {
 		var pcs []Term
@@ -886,6 +890,75 @@ func (t *tainter) ofLocked(text string, visiting map[string]bool) map[string]boo
 		for f := range m {
 			out[f] = true
 		}
+	}
+	return out
+}
+
+// relationalFrame re-executes the body on a second set of parameters that agrees with the first
+// only on the listed access paths, and asks for equal results (2-safety by self-composition).
+func (fx *FuncCtx) relationalFrame(paths []string, first *Flow, info *types.Info) {
+	if len(first.rets) == 0 {
+		return
+	}
+	st2 := &State{pc: "true", env: map[types.Object]Val{}}
+	for name, obj := range fx.params {
+		v1 := fx.entry.env[obj]
+		v2 := fx.fresh(obj.Type(), name+"_2")
+		st2.env[obj] = fx.shareListed(name, v1, v2, paths)
+	}
+	for _, o := range fx.results {
+		st2.env[o] = fx.zero(o.Type())
+	}
+	x2 := &Exec{fx: fx, info: info}
+	flow2 := x2.block(fx.decl.Body.List, st2)
+	if flow2.fall != nil {
+		panic(unsupported{"relational frame needs explicit returns"})
+	}
+	// merge the returns of each run into one value
+	merge := func(rs []*RetState) (Term, []Val) {
+		pcs := []Term{}
+		acc := rs[len(rs)-1].vals
+		for i := len(rs) - 2; i >= 0; i-- {
+			nv := make([]Val, len(acc))
+			for k := range acc {
+				nv[k] = fx.iteVal(rs[i].st.pc, rs[i].vals[k], acc[k])
+			}
+			acc = nv
+		}
+		for _, r := range rs {
+			pcs = append(pcs, r.st.pc)
+		}
+		return sOr(pcs...), acc
+	}
+	pc1, v1 := merge(first.rets)
+	pc2, v2 := merge(flow2.rets)
+	ev := &Ev{fx: fx, st: &State{pc: "true"}, contract: true}
+	var eqs []Term
+	for k := range v1 {
+		eqs = append(eqs, ev.sameVal(v1[k], v2[k], fx.decl))
+	}
+	lbl := "frame.dependsonly"
+	ob := fx.oblige("frame", lbl, fx.decl.Pos(), sAnd(pc1, pc2), sAnd(eqs...), "the result depends only on: "+strings.Join(paths, ", "))
+	if id := fx.con.Options["dependsonly-finding"]; id != "" {
+		ob.FindingID = id
+	}
+}
+
+// shareListed returns v2 with every listed access path (name, name.f, name.f.g) replaced by v1's.
+func (fx *FuncCtx) shareListed(name string, v1, v2 Val, paths []string) Val {
+	for _, p := range paths {
+		if p == name {
+			return v1
+		}
+	}
+	s1, ok1 := v1.(VStruct)
+	s2, ok2 := v2.(VStruct)
+	if !ok1 || !ok2 {
+		return v2
+	}
+	out := cloneStruct(s2)
+	for _, f := range s1.Names {
+		out.F[f] = fx.shareListed(name+"."+f, s1.F[f], s2.F[f], paths)
 	}
 	return out
 }
